@@ -66,6 +66,7 @@ def wl_core(tier, seed):
                 # (a debug assertion that fires first would hide the corruption behind a panic)
                 ("l2large_fast", large_batch(seed, 4, 120, base=80), dict(per_tlc=1, tlc_jobs=4, profile="fast")),
                 ("l2large", large_batch(seed + 1, 2, 120, base=90), dict(per_tlc=1, tlc_jobs=2)),
+                ("l2_fast", l2_batch(seed + 2, 3, nops=90, base=95), dict(per_tlc=1, tlc_jobs=3, profile="fast")),
                 ("reloc", reloc_batch(seed, 4, 120, base=40), dict(per_tlc=1, tlc_jobs=4)),
                 ("l1", l1_batch(seed, 3, 3000, base=20), dict(per_tlc=1, tlc_jobs=3, max_slots=300)),
                 # sessions: close and reopen with parameters drawn independently of the creation parameters
@@ -290,9 +291,12 @@ def wl_twice(tier, seed):
 
 def wl_wrongtype(tier, seed):
     if tier == "quick":
-        return [("wrongtype", [gen.gen_wrongtype(seed * 1000 + 1, idbase=0, sigvals=4, name="wrongtype")], dict(per_tlc=1, tlc_jobs=2, op_timeout=40))]
+        return [("wrongtype", [gen.gen_wrongtype(seed * 1000 + 1, idbase=0, sigvals=4, name="wrongtype")], dict(per_tlc=1, tlc_jobs=2, op_timeout=40)),
+                # the refusal must not live in a debug assertion: the same scenarios in the profile without them
+                ("wrongtype_fast", [gen.gen_wrongtype(seed * 1000 + 2, idbase=IDSTEP, sigvals=2, name="wrongtype_fast")], dict(per_tlc=1, tlc_jobs=2, op_timeout=40, profile="fast"))]
     out = [gen.gen_wrongtype(seed * 1000 + 1 + i, idbase=i * IDSTEP, sigvals=255 if i == 0 else 16, name="wrongtype_%d" % i) for i in range(4)]
-    return [("wrongtype", out, dict(per_tlc=1, tlc_jobs=4, op_timeout=40))]
+    return [("wrongtype", out, dict(per_tlc=1, tlc_jobs=4, op_timeout=40)),
+            ("wrongtype_fast", [gen.gen_wrongtype(seed * 1000 + 9, idbase=9 * IDSTEP, sigvals=8, name="wrongtype_fast")], dict(per_tlc=1, tlc_jobs=2, op_timeout=40, profile="fast"))]
 
 
 def wl_bulk(tier, seed):
@@ -337,6 +341,9 @@ def wl_golden(tier, seed):
     return [("golden", checks, dict(per_tlc=1, tlc_jobs=8, max_slots=400)),
             ("rewrite", rewrites, dict(per_tlc=1, tlc_jobs=8, max_slots=400)),
             ("l2", l2_batch(seed + 9, 4 if tier == "quick" else 30, nops=60 if tier == "quick" else 200, base=700), dict(per_tlc=2, tlc_jobs=6)),
+            # length fields of four bytes (values above 2 MiB) written and read back
+            ("l1big", [gen.gen_l1(seed * 1000 + 88, idbase=901 * IDSTEP, nops=80 if tier == "quick" else 400, nkeys=12, nb=("BucketsSize", 8), kt="bytes", big=2,
+                                  reopen_every=30, name="l1big")], dict(per_tlc=1, tlc_jobs=1, max_slots=300, op_timeout=60, xmx="4g")),
             # the released encoding of integer keys (C12.key_bytes)
             ("conv", [gen.gen_conv(seed * 1000 + 77, idbase=900 * IDSTEP, extra=300 if tier == "quick" else 3000, name="conv")], dict(per_tlc=1, tlc_jobs=1))]
 
@@ -379,7 +386,7 @@ def wl_layout(tier, seed):
                            for i, kl in enumerate((10, 18, 26, 11) if tier == "quick" else (10, 18, 26, 42, 58, 11, 12, 19, 74))], dict(per_tlc=1, tlc_jobs=4, op_timeout=60)),
             # records that exactly fill their slot, in chains whose links change width (relocation, unlinking)
             ("reloc", reloc_batch(seed + 4, 4 if tier == "quick" else 24, 120 if tier == "quick" else 400, base=600), dict(per_tlc=1, tlc_jobs=4 if tier == "quick" else 8))] \
-        + wl_core(tier, seed)[:1]
+        + wl_core(tier, seed)[:1] + [("l2large", large_batch(seed + 3, 3 if tier == "quick" else 12, 120 if tier == "quick" else 300, base=620), dict(per_tlc=1, tlc_jobs=3 if tier == "quick" else 6))]
 
 
 def _mc(module, cfg, **kw):
@@ -424,7 +431,10 @@ def wl_space(tier, seed):
     else:
         cyc = [gen.gen_cyclic(seed * 1000 + 70 + i, idbase=(950 + i) * IDSTEP, rounds=50, shape=sh, name="cyclic_%s_%d" % (sh, i))
                for i, sh in enumerate(("mixed", "large", "small", "mixed", "large", "small"))]
-    return [("cyclic", cyc, dict(per_tlc=1, tlc_jobs=6))] + wl_core(tier, seed)
+    # one bucket chain of thousands of entries (scale): every key put again, len and the slot partition checked
+    lc = [gen.gen_longchain(seed * 1000 + 60, idbase=960 * IDSTEP, nkeys=4500 if tier == "quick" else 12000, name="longchain")]
+    return [("cyclic", cyc, dict(per_tlc=1, tlc_jobs=6)),
+            ("longchain", lc, dict(per_tlc=1, tlc_jobs=1, max_slots=300, op_timeout=60, xmx="4g"))] + wl_core(tier, seed)
 
 
 PLANS = {
